@@ -416,6 +416,12 @@ func genSeqScenario(r *verifrt.Rand, i int) *seqScenario {
 			}
 			f := &ufile{Build: bl, Kind: "ok", End: end, Begin: end.Add(-time.Duration(2+r.Intn(5)) * 24 * time.Hour)}
 			f.Counts = map[string]uint64{"editor/opens": uint64(1 + r.Intn(9) + 100*k), "flag:v": uint64(2 + k), "crash/crash" + frames: uint64(1 + k), "secret/" + s.Canary: 1}
+			if k == 0 && (j/30)%2 == 0 {
+				// (a stack cut off by the encoder: a name of exactly the largest length)
+				deep := "crash/crash" + strings.Repeat(frames, 70)
+				const bad = "\ntruncated\n"
+				f.Counts[deep[:4096-len(bad)]+bad] = 3
+			}
 			f.setName(k)
 			s.Files = append(s.Files, f)
 		}
